@@ -95,7 +95,18 @@ func (p *path) concreteModel() map[string]any {
 	return out
 }
 
-func (d *diffCase) compare(o *nativeOutcome) string {
+func uniq(xs []string) []string {
+	sort.Strings(xs)
+	var out []string
+	for i, x := range xs {
+		if i == 0 || x != xs[i-1] {
+			out = append(out, x)
+		}
+	}
+	return out
+}
+
+func (d *diffCase) compare(o *nativeOutcome, envNondet bool) string {
 	if o == nil {
 		return "no native outcome"
 	}
@@ -106,11 +117,11 @@ func (d *diffCase) compare(o *nativeOutcome) string {
 	if o.Outcome != eo {
 		return fmt.Sprintf("outcome engine=%s native=%s %s", eo, o.Outcome, o.Panic)
 	}
-	a := append([]string{}, d.failed...)
-	b := append([]string{}, o.Failed...)
-	sort.Strings(a)
-	sort.Strings(b)
-	if strings.Join(a, ",") != strings.Join(b, ",") {
+	a := uniq(append([]string{}, d.failed...))
+	b := uniq(append([]string{}, o.Failed...))
+	// harnesses whose verdict depends on an environment choice (map order) are compared on their
+	// observations only: the native run sees one arbitrary order
+	if !envNondet && strings.Join(a, ",") != strings.Join(b, ",") {
 		return fmt.Sprintf("failed assertions engine=%v native=%v", a, b)
 	}
 	if len(d.observes) != len(o.Observes) {
